@@ -2,7 +2,7 @@
    text of the tree (gen/SchemaText.v), both recomputed on every run. *)
 From Coq Require Import String.
 From Coq Require Import NArith List Bool.
-From MTV Require Import Base.Bytes Base.Str Prim.Crc32 TL.Types TL.Codec TL.Typing TL.TLText TL.Match.
+From MTV Require Import Base.Bytes Base.Str Prim.Crc32 TL.Types TL.Codec TL.Typing TL.TLText TL.Match TL.Names.
 From MTVgen Require Import SchemaText Registry.
 Import ListNotations.
 Open Scope N_scope.
@@ -49,11 +49,29 @@ Definition bad_wrappers := filter (fun t => negb (wrapper_ok t)) shipped_wrapper
 Fixpoint nodup_n (l : list N) : bool := match l with [] => true | x :: r => negb (mem x r) && nodup_n r end.
 Definition wrapper_ids := flat_map (fun t => match get_struct shipped t with Some sd => match s_crc sd with Some k => [k] | None => [] end | None => [] end) shipped_wrappers.
 
+(* parameter names against Go field names (API layer and wrappers: generated naming convention;
+   the hand-written service objects name their fields freely) *)
+Definition names_of (tid : N) : list bytes := nth (N.to_nat tid) shipped_field_names [].
+Definition api_name_mismatches := filter (fun c =>
+  negb (list_contains excluded (c_name c)) &&
+  match lookup_reg shipped (c_id c) with
+  | Some (RStruct tid) => negb (names_agree (c_params c) (names_of tid))
+  | _ => false end) api.
+Definition bad_wrapper_names := filter (fun t =>
+  match get_struct shipped t with
+  | Some sd => match s_crc sd with
+               | Some k => match find (fun c => (c_id c =? k) && c_isfun c) api with
+                           | Some c => negb (names_agree (c_params c) (names_of t))
+                           | None => false end
+               | None => false end
+  | None => false end) shipped_wrappers.
+
 (* machine-readable report for ./check (printed before the theorems so that it is available when one fails) *)
 Eval vm_compute in ("C13-REPORT"%string,
   ("api_mismatch_ids", map c_id api_mismatches), ("mt_mismatch_ids", (map c_id mt_mismatches ++ map c_id mt_custom_bad)%list),
   ("bad_crc_lines", map (fun s => match parse_line false s with LDef c => c_id c | _ => 0 end) bad_ids),
-  ("not_in_schema", not_in_schema), ("bad_wrappers", bad_wrappers),
+  ("not_in_schema", not_in_schema), ("bad_wrappers", (bad_wrappers ++ bad_wrapper_names)%list),
+  ("name_mismatch_ids", map c_id api_name_mismatches),
   ("counts", [N.of_nat (length api); N.of_nat (length mt); N.of_nat (length mt_wire); N.of_nat (count_bad api_parsed + count_bad mt_parsed);
               N.of_nat (length shipped_wrappers); N.of_nat (length (u_reg shipped))])).
 
@@ -85,3 +103,7 @@ Print Assumptions C13i_nothing_else_registered.
 Theorem C13i_wrappers_match_schema : bad_wrappers = [] /\ nodup_n wrapper_ids = true.
 Proof. vm_compute. split; reflexivity. Qed.
 Print Assumptions C13i_wrappers_match_schema.
+
+Theorem C13i_parameter_names_match : api_name_mismatches = [] /\ bad_wrapper_names = [].
+Proof. vm_compute. split; reflexivity. Qed.
+Print Assumptions C13i_parameter_names_match.
